@@ -1,6 +1,8 @@
 package main
 
 import (
+	"math"
+	"strconv"
 	"fmt"
 	"go/types"
 	"os"
@@ -151,11 +153,12 @@ type Explorer struct {
 	violations   []Violation
 	inconclusive []Inconclusive
 	vioSeen      map[string]bool
+	vioCount     map[string]int
 	witnesses    []Witness
 }
 
 func NewExplorer(prog *ssa.Program, fn *ssa.Function, cfg Config) *Explorer {
-	e := &Explorer{prog: prog, fn: fn, name: fn.Name(), cfg: cfg, stats: newStats(), vioSeen: map[string]bool{}}
+	e := &Explorer{prog: prog, fn: fn, name: fn.Name(), cfg: cfg, stats: newStats(), vioSeen: map[string]bool{}, vioCount: map[string]int{}}
 	e.cond = sync.NewCond(&e.mu)
 	return e
 }
@@ -234,11 +237,15 @@ func (e *Explorer) Run() {
 func (e *Explorer) addViolation(v Violation) {
 	e.mu.Lock()
 	defer e.mu.Unlock()
+	// keep a few counterexamples per message (from different cases) so that
+	// replay can try more than one
 	k := v.Kind + "|" + v.Msg
-	if e.vioSeen[k] {
+	kc := k + "|" + v.Case
+	if e.vioSeen[kc] || e.vioCount[k] >= 6 {
 		return
 	}
-	e.vioSeen[k] = true
+	e.vioSeen[kc] = true
+	e.vioCount[k]++
 	e.violations = append(e.violations, v)
 }
 
@@ -285,6 +292,7 @@ type Worker struct {
 	journal  []journalEnt
 	mergeDepthAbort bool
 	inInit          bool
+	gmpSeq          int
 	observes        []obsRec
 	constCache      map[*ssa.Const]Value
 	randSeq         int
@@ -361,6 +369,7 @@ func (w *Worker) runPath(j Job) {
 	w.globals = map[*ssa.Global]*Value{}
 	w.nextBack = 0
 	w.depth = 0
+	w.gmpSeq = 0
 	w.observes = w.observes[:0]
 	w.randSeq = 0
 	w.stubs = nil
@@ -773,7 +782,8 @@ type Tape struct {
 	Choose  map[string]int64   `json:"choose"`
 	Ints    map[string]int64   `json:"ints"`
 	Uints   map[string]uint64  `json:"uints"`
-	Floats  map[string]float64 `json:"floats"`
+	Floats  map[string]string  `json:"floats"`
+	FBits   map[string]uint64  `json:"fbits,omitempty"`
 	Msg     string             `json:"msg,omitempty"`
 	Pkg     string             `json:"pkg"`
 	Tags    string             `json:"tags"`
@@ -782,7 +792,7 @@ type Tape struct {
 }
 
 func (w *Worker) buildTape(m Model) *Tape {
-	t := &Tape{Harness: w.ex.name, Choose: map[string]int64{}, Ints: map[string]int64{}, Uints: map[string]uint64{}, Floats: map[string]float64{}}
+	t := &Tape{Harness: w.ex.name, Choose: map[string]int64{}, Ints: map[string]int64{}, Uints: map[string]uint64{}, Floats: map[string]string{}, FBits: map[string]uint64{}}
 	for _, c := range w.chooses {
 		t.Choose[c.Name] = c.Val
 	}
@@ -808,9 +818,15 @@ func (w *Worker) buildTape(m Model) *Tape {
 			}
 		case SReal:
 			f, _ := modelReal(v)
-			t.Floats[in.Name] = f
+			t.Floats[in.Name] = strconv.FormatFloat(f, 'g', -1, 64)
 		case SFP:
-			t.Floats[in.Name] = modelFP(v)
+			f := modelFP(v)
+			t.Floats[in.Name] = strconv.FormatFloat(f, 'g', -1, 64)
+			if in.T.Sort.W == 32 {
+				t.FBits[in.Name] = uint64(math.Float32bits(float32(f)))
+			} else {
+				t.FBits[in.Name] = math.Float64bits(f)
+			}
 		}
 	}
 	return t
